@@ -146,7 +146,19 @@ func c15r1(p *Prog, r *Reporter) {
 					break
 				}
 			}
-			if found != "" {
+			// a struct that only groups fields which are kept when they sit in the owner directly
+			groupsKept := false
+			if gs, ok := stt.Field(i).Type().Underlying().(*types.Struct); ok && gs.NumFields() > 0 && found == "" {
+				groupsKept = true
+				for j := 0; j < gs.NumFields(); j++ {
+					if _, kept := resetKeep[st.name+"."+fieldName(stt.Field(i).Type(), j)]; !kept {
+						groupsKept = false
+					}
+				}
+			}
+			if groupsKept {
+				r.OKt("ecs.(*World).Reset", "keeps "+key, p.Pos(stt.Field(i).Pos()), "run state (written by "+writer+") deliberately kept: a struct grouping fields of the keep-list")
+			} else if found != "" {
 				r.OK("ecs.(*World).Reset", "resets "+key, p.Pos(stt.Field(i).Pos()), "run state (written by "+writer+"); Reset's mod-set contains "+found)
 			} else {
 				r.Bad("ecs.(*World).Reset", "resets "+key, p.Pos(stt.Field(i).Pos()), "the field is run state (written by "+writer+") but World.Reset never writes it and it is not on the keep-list: a reset world would not behave like a fresh one")
